@@ -566,6 +566,42 @@ def _verify(snap: str, keys: list, uses: tuple, records: list, acked: set, n_off
 
     _fresh_process_state()
     use_id, use_wallet = uses
+    # The token / metadata loaders hand back *sets*: their iteration order is unspecified (it depends on object addresses in the
+    # next process).  The simulator owns that choice: reverse insertion order (children before parents) or a seeded shuffle.
+    from ipv8.attestation.identity.database import IdentityDatabase
+    orig_gtf = IdentityDatabase.get_tokens_for
+
+    class _OrderedSet(set):
+        def __init__(self, items: list) -> None:
+            super().__init__(items)
+            self._order = list(items)
+
+        def __iter__(self):  # noqa: ANN204
+            return iter(self._order)
+
+    def get_tokens_for(self, public_key):  # noqa: ANN001, ANN202
+        toks = list(orig_gtf(self, public_key))
+        sigs = [bytes(r[0]) for r in self.execute("SELECT signature FROM Tokens WHERE public_key = ? ORDER BY rowid",
+                                                  (public_key.key_to_bin(),), fetch_all=True)]
+        pos = {sg: i for i, sg in enumerate(sigs)}
+        toks.sort(key=lambda t: pos.get(bytes(t.signature), 1 << 30))
+        if len(toks) % 2:
+            toks.reverse()
+        else:
+            random.Random(f"c19/setorder/{n_offered}/{len(toks)}").shuffle(toks)
+        return _OrderedSet(toks)
+    IdentityDatabase.get_tokens_for = get_tokens_for
+    try:
+        return _verify_inner(snap, keys, uses, records, acked, n_offered, sub, problems, visible, stats, must, inflight, compare)
+    finally:
+        IdentityDatabase.get_tokens_for = orig_gtf
+
+
+def _verify_inner(snap, keys, uses, records, acked, n_offered, sub, problems, visible, stats, must, inflight, compare):  # noqa: ANN001, ANN202, C901, PLR0912, PLR0913, PLR0915
+    from ipv8.attestation.identity.manager import IdentityManager
+    from ipv8.attestation.wallet.database import AttestationsDB
+    from ipv8.keyvault.crypto import default_eccrypto
+    use_id, use_wallet = uses
     # ------------------------------------------------------------------ identity database
     if use_id:
         mgr = None
@@ -590,6 +626,11 @@ def _verify(snap: str, keys: list, uses: tuple, records: list, acked: set, n_off
                     key = keys[p]
                     ps = mgr.get_pseudonym(key)
                     pub = ps.public_key
+                    stored = {r for r in visible.get("Tokens", ()) if r[0] == pub.key_to_bin()}
+                    if len(ps.tree.elements) != len(stored):
+                        problems.append(("pseudonym_verifies", "identity:pseudonym_lacks_stored_tokens", False,
+                                         f"pseudonym {p}: {len(stored)} token rows are stored for its key, the rebuilt tree holds "
+                                         f"{len(ps.tree.elements)} ({len(ps.tree.unchained)} waiting)"))
                     for token in ps.tree.elements.values():
                         if not ps.tree.verify(token):
                             problems.append(("pseudonym_verifies", "identity:pseudonym_token_chain_unverifiable", False,
@@ -1262,6 +1303,11 @@ def cases(tier: str, base_seed: int):  # noqa: ANN201
         for r in range(split):
             yield {"scenario": "scripted", "name": name, "seed": 1000 + i, "ops": ops,
                    "crash": {"mod": split, "rem": r}, "recovery": "all"}
+    # a pseudonym with a long chain (more tokens than the token tree's waiting area holds): few crash points, full reload each time
+    chain = [{"op": "cred", "p": 0, "id": k, "after": k - 1 if k > 1 else None, "msize": 0, "csize": 0} for k in range(1, 131)]
+    for r in ((7,) if tier == "quick" else (7, 19, 31)):
+        yield {"scenario": "scripted", "name": "long_chain_130", "seed": 1500, "ops": chain, "crash": {"mod": 120, "rem": r},
+               "recovery": "none"}
     if tier == "thorough":
         for probe in ("strace_kills", "selfkill_children", "copy_model_agrees", "checkpoint_while_open"):
             if probe not in REACH:
